@@ -217,6 +217,25 @@ func C11(p *ir.Program, r *report.R) {
 		for t := range cases {
 			r.Check("K5", "dispatch-exhaustive/"+key+"/registered:"+t, p.Pos(fn.Pos()), registered[t], "every case type of the handler is a registered concrete type of "+h.iface)
 		}
+		// ... in the FORM the decoder produces: a type registered as T{} decodes to a T, one registered
+		// as &T{} to a *T; a `case T:` for a pointer registration never matches a decoded message
+		formCase := map[string]string{}
+		ir.InstrsDeep(fn, func(f *ssa.Function, in ssa.Instruction) {
+			if ta, ok := in.(*ssa.TypeAssert); ok && ta.CommaOk && types.Identical(ta.X.Type(), named) {
+				ts := typeShortT(ta.AssertedType)
+				formCase[strings.TrimPrefix(ts, "*")] = ts
+			}
+		})
+		for _, g := range regs {
+			if g.iface != ifaceName {
+				continue
+			}
+			ts := typeShortT(g.t)
+			base := strings.TrimPrefix(ts, "*")
+			if fc, ok := formCase[base]; ok {
+				r.Check("K5", "dispatch-exhaustive/"+key+"/form:"+base, g.pos, fc == ts, fmt.Sprintf("registered as %s, handled as %s (value vs pointer must agree)", ts, fc))
+			}
+		}
 		if len(registered) == 0 {
 			r.Undecided("K5", "dispatch-exhaustive/"+key, p.Pos(fn.Pos()), "no registered types found for "+h.iface)
 		}
@@ -408,6 +427,13 @@ func C11(p *ir.Program, r *report.R) {
 		sum := ir.DefaultEffects(p).Summarize(tb)
 		r.Check("K4", "ser.(*encbuf).toBytes/returns-fresh-memory", p.Pos(tb.Pos()), sum.RetFresh, "the encoding handed to the caller does not alias the pooled buffer")
 	}
+
+	// ---- a type chosen by the input fits where it is stored ------------------------------------------------
+	// Interface fields are decoded by looking the concrete type up BY THE PREFIX BYTES OF THE INPUT among
+	// all registered types. reflect.Value.Set panics when that type cannot be stored in the field, so the
+	// store is guarded by an assignability test (fix d85487d: a vote message where a types.Tx is expected
+	// used to panic inside the consensus routine).
+	typeChosenByInputFits(c)
 
 	// ---- one value per byte string -----------------------------------------------------------
 	// The slice decoders accept exactly one value: success is returned only when the reader is
@@ -694,4 +720,32 @@ func serCanonicalMaps(p *ir.Program, r *report.R) {
 		}
 	}
 	r.Check("K6", "ser.sortableMapKey.Less/strict-byte-order", p.Pos(ls.Pos()), okL, "Less is the strict byte order of the keys")
+}
+
+// typeChosenByInputFits is shared by C11 (decoding never crashes) and C16 (no peer message halts
+// consensus).
+func typeChosenByInputFits(c C) {
+	p, r := c.P, c.R
+	n := 0
+	for _, f := range p.Funcs {
+		if f.Pkg == nil || ir.RelPkg(f.Pkg.Pkg) != "libs/ser" || f.Blocks == nil || strings.HasSuffix(p.Pos(f.Pos()), "_test.go") {
+			continue
+		}
+		if strings.Contains(p.Pos(f.Pos()), "libs/ser/json-") {
+			continue // the JSON codec (config files, RPC client side) is outside the statement; same gap, see DESIGN 8.7
+		}
+		for _, call := range ir.Calls(f, "reflect.Value.Set") {
+			src := Arg(call, 1)
+			if !strings.Contains(src, "getTypeInfoFrom") {
+				continue // the value's type is derived from the destination's own type
+			}
+			n++
+			dst := Arg(call, 0)
+			fs := ir.FactsAt(call.(ssa.Instruction))
+			ok := ir.HasFact(fs, "reflect.Type.AssignableTo(reflect.Value.Type("+src+"),reflect.Value.Type("+dst+"))") ||
+				ir.HasFact(fs, "reflect.Type.Implements(reflect.Value.Type("+src+"),reflect.Value.Type("+dst+"))")
+			r.Check("K9", "ser/type-chosen-by-input-fits/"+ir.FuncName(ir.EnclosingTop(f)), p.InstrPos(call.(ssa.Instruction)), ok, "Set of a value whose type was selected by the input bytes is guarded by AssignableTo/Implements for the destination type")
+		}
+	}
+	r.Check("K9", "ser/type-chosen-by-input-fits/sites", "-", n >= 1, fmt.Sprintf("%d stores of an input-selected type found in libs/ser", n))
 }
